@@ -357,52 +357,44 @@ func (e BridgeEngine) bridgerNameOf(r *Run, c *ChainSt, bech string) (string, bo
 	return "", false
 }
 
+// variantFor picks one field of the honest claim (by reflection over the claim type) and a
+// replacement value that still passes stateless validation.
 func (e BridgeEngine) variantFor(r *Run, c *ChainSt, ev *ExtEvent) (string, string) {
 	w := r.W
+	honest := c.buildClaim(w, ev, c.bridgerKey(w, 0).Bech(), "")
+	if honest == nil {
+		return "", ""
+	}
+	fields := claimFields(honest)
+	if len(fields) == 0 {
+		return "", ""
+	}
 	otherAddr := ExtAddrStr(c.Name, w.Key("extuser", 50+r.Rng.IntN(5)).Hex())
-	switch ev.Kind {
-	case "send_to_fx":
-		switch r.Rng.IntN(5) {
-		case 0:
-			return "amount", ""
-		case 1:
-			return "receiver", w.Key("adv", 0).Bech()
-		case 2:
-			return "sender", otherAddr
-		case 3:
-			return "target", hex.EncodeToString([]byte("erc20"))
-		default:
-			return "height", ""
+	cands := []string{otherAddr, w.Key("adv", 0).Bech(), "0000000000000000000000000000000000000000000000000000000000010000", "00", hex.EncodeToString([]byte("erc20")), "X", "FX"}
+	for try := 0; try < 6; try++ {
+		f := fields[r.Rng.IntN(len(fields))]
+		start := r.Rng.IntN(len(cands))
+		for k := 0; k < len(cands); k++ {
+			val := cands[(start+k)%len(cands)]
+			cl := c.buildClaim(w, ev, c.bridgerKey(w, 0).Bech(), "")
+			if mutateClaim(cl, f, val) != nil {
+				continue
+			}
+			if safeValidate(cl) == nil {
+				return f, val
+			}
 		}
-	case "bridge_call":
-		switch r.Rng.IntN(8) {
-		case 0:
-			return "amount", ""
-		case 1:
-			return "sender", otherAddr
-		case 2:
-			return "refund", otherAddr
-		case 3:
-			return "to", otherAddr
-		case 4:
-			return "data", "00"
-		case 5:
-			return "memo", hex.EncodeToString(append(make([]byte, 31), 1))
-		case 6:
-			return "tx_origin", otherAddr
-		default:
-			return "value", ""
-		}
-	case "bridge_call_result":
-		return []string{"success", "tx_origin", "cause", "nonce"}[r.Rng.IntN(4)], map[bool]string{true: otherAddr, false: "00"}[r.Pct(50)]
-	case "batch":
-		return "batch_nonce", ""
-	case "add_token":
-		return []string{"symbol", "name", "decimals", "channel"}[r.Rng.IntN(4)], "41"
-	case "oracle_set":
-		return []string{"set_nonce", "power", "height"}[r.Rng.IntN(3)], ""
 	}
 	return "", ""
+}
+
+func safeValidate(cl cctypes.ExternalClaim) (err error) {
+	defer func() {
+		if r := recover(); r != nil {
+			err = fmt.Errorf("panic: %v", r)
+		}
+	}()
+	return cl.ValidateBasic()
 }
 
 // genConfirms: live oracles confirm what they have not confirmed yet.
